@@ -1,6 +1,7 @@
 #!/bin/sh
 # explore.sh <Cxx> <cases> <seed> [shards]: exploration run that records every failure signature (never used by registered checks)
 P=$1; N=$2; S=$3; W=${4:-12}
+/verif/check build >/dev/null 2>&1 || { echo "build failed"; exit 2; }
 BIN=$(ls -t /verif/harness/target/verif/deps/lcv-* | grep -v '\.d$' | head -1)
 rm -f /tmp/explore-$P-*.json
 for sh in $(seq 0 $((W-1))); do
